@@ -1837,17 +1837,17 @@ func TransformHandler(value string) bool {
 	if Matrix3D.MatchString(value) {
 		return true
 	}
-	subValue := string(TranslateScale.ReplaceAll([]byte(value), []byte{}))
-	trimValue := strings.Split(strings.TrimSuffix(subValue, ")"), ",")
-	valid := true
-	for _, i := range trimValue {
-		if !LengthHandler(strings.TrimSpace(i)) {
-			valid = false
-			break
+	if args, ok := transformArguments(TranslateScale, value); ok {
+		valid := true
+		for _, i := range strings.Split(args, ",") {
+			if !LengthHandler(strings.TrimSpace(i)) {
+				valid = false
+				break
+			}
 		}
-	}
-	if valid && trimValue != nil {
-		return true
+		if valid {
+			return true
+		}
 	}
 	if Rotate.MatchString(value) {
 		return true
@@ -1855,22 +1855,38 @@ func TransformHandler(value string) bool {
 	if Rotate3D.MatchString(value) {
 		return true
 	}
-	subValue = string(Skew.ReplaceAll([]byte(value), []byte{}))
-	subValue = strings.TrimSuffix(subValue, ")")
-	trimValue = strings.Split(subValue, ",")
-	valid = true
-	for _, i := range trimValue {
-		if !LengthHandler(strings.TrimSpace(i)) {
-			valid = false
-			break
+	if args, ok := transformArguments(Skew, value); ok {
+		valid := true
+		for _, i := range strings.Split(args, ",") {
+			if !LengthHandler(strings.TrimSpace(i)) {
+				valid = false
+				break
+			}
+		}
+		if valid {
+			return true
 		}
 	}
-	if valid {
-		return true
+	if args, ok := transformArguments(Perspective, value); ok {
+		return LengthHandler(args)
 	}
-	subValue = string(Perspective.ReplaceAll([]byte(value), []byte{}))
-	subValue = strings.TrimSuffix(subValue, ")")
-	return LengthHandler(subValue)
+	return false
+}
+
+// transformArguments returns what stands between the parentheses if value is
+// one call of a function whose name and opening parenthesis match opening:
+// the name at the very start, the closing parenthesis at the very end and no
+// other parenthesis between them
+func transformArguments(opening *regexp.Regexp, value string) (string, bool) {
+	loc := opening.FindStringIndex(value)
+	if loc == nil || loc[0] != 0 || !strings.HasSuffix(value, ")") || loc[1] > len(value)-1 {
+		return "", false
+	}
+	args := value[loc[1] : len(value)-1]
+	if strings.ContainsAny(args, "()") {
+		return "", false
+	}
+	return args, true
 }
 
 func TransformOriginHandler(value string) bool {
